@@ -3,7 +3,7 @@ the true rate (probability max(0, q_true) / q_bound), and an unconfirmed event h
 from pyvc.api import cls, spec, contract, ufunc
 
 A = "jellyfysh.event_handler.abstracts."
-cls("Unit", identifier="any", position="list[float]", charge="any", velocity="opt[list[float]]", time_stamp="opt[Time]")
+cls("Unit", identifier="list[int]", position="list[float]", charge="any", velocity="opt[list[float]]", time_stamp="opt[Time]")
 cls("Node", value="Unit", parent="opt[Node]", children="list[Node]", _weight="float")
 cls("EventHandlerWithBoundingPotential", _bounding_event_rate="float", _potential="Potential", _leaf_units="list[Unit]",
     _leaf_cnodes="list[Node]", _active_leaf_unit="Unit", _active_leaf_unit_index="int", _exchanged="int")
